@@ -15,6 +15,7 @@ import (
 	"net/http"
 	"net/http/httptest"
 	"sync"
+	"sync/atomic"
 	"time"
 
 	metav1 "k8s.io/apimachinery/pkg/apis/meta/v1"
@@ -53,13 +54,18 @@ type Upstream struct {
 	// Respond writes the response for a captured request (default: 200 with a small JSON body).
 	Respond func(w http.ResponseWriter, r *http.Request, c *Captured)
 	BytesIn int64
+	probes  int64
 }
+
+// ProbeCount is the monotonic number of gateway health probes received (never cleared).
+func (u *Upstream) ProbeCount() int64 { return atomic.LoadInt64(&u.probes) }
 
 func NewUpstream(name string) *Upstream {
 	u := &Upstream{Name: name}
 	u.Server = httptest.NewServer(http.HandlerFunc(func(w http.ResponseWriter, r *http.Request) {
 		if r.URL.Path == "/healthz" && r.Header.Get("X-Verif-Probe") == "" && r.Header.Get("Impersonate-User") == "" && r.Header.Get("X-Forwarded-For") == "" {
 			// the gateway's own health probe (never sent through the proxy path)
+			atomic.AddInt64(&u.probes, 1)
 			u.mu.Lock()
 			u.reqs = append(u.reqs, &Captured{Method: "PROBE", Path: "/healthz"})
 			u.mu.Unlock()
